@@ -14,6 +14,30 @@ from . import lib
 from .facts import Place, op_place
 
 SORTED, UNSORTED = 0, 1
+BSEARCH = ('partition_point', 'binary_search', 'binary_search_by', 'binary_search_by_key')
+
+
+def _arg_closures(F, fn, c):
+    out = []
+    for a in c.args:
+        for cdef in lib.slice_back(fn, [a], through_calls=False, at=(c.bb, None)).closures:
+            if cdef in F.fns:
+                out += [F.fns[cdef]] + F.closures_of(F.fns[cdef])
+    return out
+
+
+def _ts_cmp(F, bodies):
+    """comparison operators applied to TimeIndexEntry.timestamp (entry on the left) in closure bodies"""
+    got = set()
+    for b in bodies:
+        for bb, i, s in b.stmts():
+            rv = s['rv']
+            if rv['k'] == 'bin' and rv['op'] in ('Ge', 'Le', 'Gt', 'Lt'):
+                if lib.slice_back(b, [rv['a']], through_calls=False).has_field('TimeIndexEntry', 'timestamp'):
+                    got.add(rv['op'])
+                elif lib.slice_back(b, [rv['b']], through_calls=False).has_field('TimeIndexEntry', 'timestamp'):
+                    got.add({'Ge': 'Le', 'Le': 'Ge', 'Gt': 'Lt', 'Lt': 'Gt'}[rv['op']])
+    return got
 VT = 'Vec<io::time_index::TimeIndexEntry>'
 
 
@@ -101,6 +125,11 @@ def _timeline(ctx, F):
         if c.name in ('reverse', 'partition_point', 'binary_search', 'binary_search_by', 'binary_search_by_key') and c.args and \
                 (_is_vec(fn, c.args[0]) or 'TimeIndexEntry' in str(c.t.get('res_substs') or c.t.get('substs') or '')):
             return ('need', c.name)
+        if c.args and not c.local_callee:
+            for cl in _arg_closures(F, fn, c):
+                for cc in cl.calls():
+                    if cc.name in BSEARCH and 'TimeIndexEntry' in str(cc.t.get('res_substs') or cc.t.get('substs') or ''):
+                        return ('need', cc.name)
         if c.name == 'into_iter' and c.args and VT in fn.local_ty(op_place(c.args[0]).l if op_place(c.args[0]) is not None else 0) and 'TimeIndexEntry' in ty:
             return ('need', 'consume')
         return None
@@ -161,8 +190,32 @@ def _timeline(ctx, F):
                             got.add({'Ge': 'Le', 'Le': 'Ge', 'Gt': 'Lt', 'Lt': 'Gt'}[rv['op']])
                             filt_call = c
     ctx.evaluations += len(ret)
+    if not got:
+        # sibling idiom: on a sorted vector, keep the prefix `timestamp <= until` (truncate at its partition point) and
+        # drop the prefix `timestamp < since` (drain up to its partition point). Sound only where the vector is sorted,
+        # which TYPESTATE-C15b demands of every binary search.
+        cuts = {}
+        for c in fn.calls():
+            if c.name in ('truncate', 'drain', 'split_off') and c.args and _is_vec(fn, c.args[0]):
+                sl = lib.slice_back(fn, c.args[1:2], through_calls=False, at=(c.bb, None))
+                for src in sl.calls:
+                    bod = _arg_closures(F, fn, src) if not src.local_callee else []
+                    if any(cc.name == 'partition_point' for b in bod for cc in b.calls()):
+                        kind = 'keep-prefix' if c.name == 'truncate' else ('drop-prefix' if 'RangeTo::RangeTo' in sl.aggs else 'other')
+                        cuts[kind] = (_ts_cmp(F, bod), c)
+        ctx.evaluations += len(cuts)
+        if set(cuts) == {'keep-prefix', 'drop-prefix'} and cuts['keep-prefix'][0] == {'Le'} and cuts['drop-prefix'][0] == {'Lt'}:
+            a, b = cuts['keep-prefix'][1], cuts['drop-prefix'][1]
+            filt_call = b if lib.call_success_dominates(fn, a, b.bb) else (a if lib.call_success_dominates(fn, b, a.bb) else None)
+            if filt_call is not None:
+                got = {'Ge', 'Le'}
+                via = 'binary-search window on the sorted vector: keep timestamp <= until, drop timestamp < since'
+        elif cuts:
+            got = {'%s:%s' % (k, '|'.join(sorted(v[0]))) for k, v in cuts.items()}
+    else:
+        via = 'per entry (timestamp >= since, timestamp <= until)'
     if got == {'Ge', 'Le'}:
-        ctx.ok('MPT-C15c', fn, 'since/until applied per entry with inclusive comparators (timestamp >= since, timestamp <= until)', line=filt_call.line)
+        ctx.ok('MPT-C15c', fn, 'since/until applied with inclusive comparators, ' + via, line=filt_call.line)
     else:
         ctx.bad('MPT-C15c', fn, 'since/until are not applied as inclusive per-entry comparisons (found %s)' % sorted(got), detail='since-until-comparators:' + ','.join(sorted(got)))
     rev = [c for c, k in needs if k == 'reverse']
